@@ -1,15 +1,18 @@
 #!/bin/bash
 # usage: try_mutant.sh <worktree> <prop> [more props...]
 # 1. confirm in the worktree: suite passes with the change, demo fails with / passes without
+#    (no `git stash`: the stash is shared by all worktrees of a repository)
 # 2. apply the diff to /repo, run ./check for each prop, undo
 WT="$1"; shift
 cd "$WT" || exit 2
+git diff -- . ':!demo' ':!mutant.diff' ':!NOTE.md' > /tmp/cur_mutant.diff
+if [ ! -s /tmp/cur_mutant.diff ]; then echo "no change applied in $WT; applying mutant.diff"; git apply mutant.diff || exit 2; git diff -- . ':!demo' ':!mutant.diff' ':!NOTE.md' > /tmp/cur_mutant.diff; fi
+echo "== files changed:"; git diff --stat -- . ':!demo' | tail -3
 echo "== suite with change"; make clean-tests test 2>&1 | grep -E "PASSED|FAILED|rror:" | head
 echo "== demo with change"; (cd demo && bash run_demo.sh >/tmp/demo_with.log 2>&1; echo "exit=$?")
-git stash -q
+git apply -R /tmp/cur_mutant.diff
 echo "== demo without change"; (cd demo && bash run_demo.sh >/tmp/demo_without.log 2>&1; echo "exit=$?")
-git stash pop -q
-git diff -- . ':!demo' ':!mutant.diff' ':!NOTE.md' > /tmp/cur_mutant.diff
+git apply /tmp/cur_mutant.diff
 echo "== apply to /repo"; git -C /repo apply /tmp/cur_mutant.diff && git -C /repo diff --stat | tail -1
 cd /verif
 for p in "$@"; do ./check $p 2>&1 | tail -3; done
